@@ -6,7 +6,7 @@ CONSTANTS
   Shapes = {"secure3", "insecure3", "entapex_s"}
   Denials = {"nsec", "nsec3"}
   QKinds = {"positive", "nxdeep"}
-  AdvActs = {"CorruptSigOctets", "Expire", "CorruptKey", "CorruptDs", "AddCollidingKey"}
+  AdvActs = {"Resalt", "ShortSig", "CorruptSigOctets", "Expire", "CorruptKey", "CorruptDs", "AddCollidingKey"}
 SPECIFICATION Spec
 VIEW View
 INVARIANT Soundness
